@@ -49,16 +49,17 @@ Leaf(kind, res) == << Node("leaf", kind, IF kind \in NoKinds THEN 0 ELSE res, <<
 RECURSIVE Flat(_)
 Flat(ss) == IF ss = <<>> THEN <<>> ELSE Head(ss) \o Flat(Tail(ss))
 
-RECURSIVE LenBefore(_, _)
-LenBefore(subs, i) == IF i <= 1 THEN 0 ELSE Len(subs[i - 1]) + LenBefore(subs, i - 1)
-
 Shift(tb, d) == [i \in DOMAIN tb |-> [tb[i] EXCEPT !.kids = [j \in DOMAIN @ |-> @[j] + d]]]
 
-\* composite whose members are the given tables (each rooted at its node 1)
+\* composite whose members are the given tables (each rooted at its node 1): the root,
+\* then the member tables one after the other with their child indices shifted
+RECURSIVE ComposeRec(_, _, _, _)
+ComposeRec(subs, i, nodes, kids) ==
+  IF i > Len(subs) THEN [nodes |-> nodes, kids |-> kids]
+  ELSE LET d == 1 + Len(nodes) IN
+       ComposeRec(subs, i + 1, nodes \o Shift(subs[i], d), Append(kids, d + 1))
 Compose(style, subs) ==
-  LET off == [i \in DOMAIN subs |-> 1 + LenBefore(subs, i)] IN
-  << Node(style, "", 0, [i \in DOMAIN subs |-> off[i] + 1]) >>
-     \o Flat([i \in DOMAIN subs |-> Shift(subs[i], off[i])])
+  LET c == ComposeRec(subs, 1, <<>>, <<>>) IN << Node(style, "", 0, c.kids) >> \o c.nodes
 
 \* well-formedness over resources 1..nres (termination of the recursions below)
 WF(tb, nres) ==
@@ -274,13 +275,17 @@ P_C06 ==
   /\ phase \in {"alive", "panicked"} => P_C06_outcome(sh, Present(world), held0, outc.out)
 
 P_C06_lemmas ==
+  LET ls == Leaves(sh, 1)
+      rs == SelectSeq(ls, LAMBDA x : x.kind \in ReadKinds)
+      ws == SelectSeq(ls, LAMBDA x : x.kind \in WriteKinds)
+      rd == Reads(sh, 1)
+      wr == Writes(sh, 1)
+  IN
   \* composition = map over the leaves in member order; the lists are disjoint by kind
-  /\ Reads(sh, 1)  = [i \in DOMAIN SelectSeq(Leaves(sh, 1), LAMBDA x : x.kind \in ReadKinds)
-                         |-> SelectSeq(Leaves(sh, 1), LAMBDA x : x.kind \in ReadKinds)[i].res]
-  /\ Writes(sh, 1) = [i \in DOMAIN SelectSeq(Leaves(sh, 1), LAMBDA x : x.kind \in WriteKinds)
-                         |-> SelectSeq(Leaves(sh, 1), LAMBDA x : x.kind \in WriteKinds)[i].res]
-  /\ Len(FetchSteps(sh, 1)) = Len(Reads(sh, 1)) + Len(Writes(sh, 1))
-  /\ ToSet(SetupSteps(sh, 1)) \subseteq ToSet(Reads(sh, 1)) \cup ToSet(Writes(sh, 1))
+  /\ rd = [i \in DOMAIN rs |-> rs[i].res]
+  /\ wr = [i \in DOMAIN ws |-> ws[i].res]
+  /\ Len(FetchSteps(sh, 1)) = Len(rd) + Len(wr)
+  /\ ToSet(SetupSteps(sh, 1)) \subseteq ToSet(rd) \cup ToSet(wr)
   /\ WF(sh, Cardinality(Res))
 
 P_C13_world_inv ==
